@@ -296,6 +296,49 @@ def build(active_known=frozenset()):
 
         c.ensures("the partial application calls f exactly once with the stored arguments in order followed by the call's own, and returns its result", post)
 
+    # ------------------------------------------------------------------ recur into a variadic arity: the rest parameter
+    # `recur` hands the trampoline the new arguments; for a variadic arity the last one is the new value of the rest
+    # parameter.  From the property: the rest parameter is a sequence of the surplus arguments, *nil when there are none*
+    # - so a nil rest must come out as "no surplus arguments", not as one surplus argument that is nil.
+    TA = rt._TrampolineArgs
+
+    def ta_setup(eng, st):
+        eng.class_id(TA)
+        tid = eng.class_id(tuple)
+        eng.field_types[("_TrampolineArgs", "_args")] = lambda v: (z3.And(V.is_ref(v), V.cls_of(V.Val.a(v)) == tid), tuple)
+        eng.field_types[("_TrampolineArgs", "_has_varargs")] = lambda v: V.is_bool(v)
+
+    for n in (1, 2, 3):
+        c = pack.contract("basilisp.lang.runtime:_TrampolineArgs.args")
+        c.label = f"variadic arity, {n - 1} fixed argument(s) and a nil rest"
+        c.param("self", OBJ(TA))
+        c.setup(ta_setup)
+
+        def pre(a, n=n):
+            st = a.pre.st
+            items = V.seq_of(V.Val.a(z3.Select(st.field_array("_args"), V.Val.a(a.self))))
+            return z3.And(z3.Select(st.field_array("_has_varargs"), V.Val.a(a.self)) == V.mk_bool(True), z3.Length(items) == n, V.is_none(items[n - 1]))
+
+        c.requires("the function recurred into is variadic and the new rest value is nil", pre)
+        c.raises()
+
+        def post(a, n=n):
+            st = a.pre.st
+            items = V.seq_of(V.Val.a(z3.Select(st.field_array("_args"), V.Val.a(a.self))))
+            out = V.seq_of(V.Val.a(a.result))
+            return z3.And(V.is_ref(a.result), z3.Length(out) == n - 1, *[out[i] == items[i] for i in range(n - 1)])
+
+        c.ensures("the function is re-entered with the fixed arguments only, so that its rest parameter is nil again (not a sequence holding nil)", post)
+
+    c = pack.contract("basilisp.lang.runtime:_TrampolineArgs.args")
+    c.label = "fixed arity"
+    c.param("self", OBJ(TA))
+    c.setup(ta_setup)
+    c.requires("the function recurred into is not variadic", lambda a: z3.Select(a.pre.st.field_array("_has_varargs"), V.Val.a(a.self)) == V.mk_bool(False))
+    c.raises()
+    c.modifies()
+    c.ensures("the arguments are passed on as they are", lambda a: a.result == z3.Select(a.pre.st.field_array("_args"), V.Val.a(a.self)))
+
     for c in pack.contracts:
         if c.replay_ is None:
             c.replay(lambda m, ctx, ob: CALLS_REPLAY)
@@ -313,6 +356,8 @@ src = """(ns c08.replay)
 (defn f2only [a b & more] [:f2only a b (nil? more)])
 (defn f4only [a b c d & more] [:f4only a b c d])
 (defn g ([a] [:g1 a]) ([a b] [:g2 a b]) ([a b & more] [:gv a b (vec more)]))
+(defn rr [x & more] (if (< x 3) (recur (inc x) more) [:rr x more]))
+(defn rr0 [& more] (if (seq more) (recur (next more)) [:rr0 more]))
 ;; (each step is its own top-level form, so that the order of effects does not depend on how call arguments are compiled)
 (def r1 (apply f0 (counted 0)))
 (def c1 (<= @realized 3))
@@ -335,7 +380,8 @@ src = """(ns c08.replay)
   (apply f2only [1 2])
   (apply f2only 1 [2])
   (apply g [1]) (apply g 1 [2]) (apply g 1 2 [3 4]) (apply g [1 2 3])
-  ((partial g 1) 2) ((partial g 1 2) 3 4) ((partial vector 1 2) 3 4) ((partial f2 1) 2 3))
+  ((partial g 1) 2) ((partial g 1 2) 3 4) ((partial vector 1 2) 3 4) ((partial f2 1) 2 3)
+  (rr 0) (rr 0 :a :b) (rr0 1 2 3))
 """
 with tempfile.NamedTemporaryFile("w", suffix=".lpy", delete=False) as fh:
     fh.write(src)
@@ -345,7 +391,7 @@ finally:
     os.unlink(fh.name)
 line = [l for l in out.stdout.splitlines() if l.startswith("RESULT")]
 got = line[0] if line else "no output: " + out.stderr[-400:]
-want = "RESULT [:f0 0 1] true [:f2 0 1 2] true [:f2 10 0 1] true true true [:f2 10 20 30] [:f2only 1 2 true] [:f2only 1 2 true] [:g1 1] [:g2 1 2] [:gv 1 2 [3 4]] [:gv 1 2 [3]] [:g2 1 2] [:gv 1 2 [3 4]] [1 2 3 4] [:f2 1 2 3]"
+want = "RESULT [:f0 0 1] true [:f2 0 1 2] true [:f2 10 0 1] true true true [:f2 10 20 30] [:f2only 1 2 true] [:f2only 1 2 true] [:g1 1] [:g2 1 2] [:gv 1 2 [3 4]] [:gv 1 2 [3]] [:g2 1 2] [:gv 1 2 [3 4]] [1 2 3 4] [:f2 1 2 3] [:rr 3 nil] [:rr 3 (:a :b)] [:rr0 nil]"
 print("got     ", got)
 print("expected", want)
 print("REPRODUCED" if got != want else "not reproduced")
